@@ -252,7 +252,7 @@ CONFIG = {
         "the model follows Delete / gcIndex / Tag / resolver.Memory.Tag of the frozen /repo main: C09's fixes (queue-once, pending/held referrers counted by links, referrer pass with subject-manifest test), C07's digest reference for a manifest that loses its last predecessor, C10's removal of references by digest, Tag indexing a manifest before tagging it; the referrer pass as found (GC hang, F1) is kept behind fixF1=false with result RHang (C08_gc_hang_prefix); os.ReadDir/os.Remove errors of GC's sweep are not modelled; files under blobs/ that are no content are modelled by kind (gc_sweeps_stray) outside the store record; blob files written behind the store's back (OInject) are restricted to non-manifest content in the theorems; Push always passes the bare node descriptor (annotations on the pushed descriptor are not generated)",
     ],
     "level_text": "Coq theorems over all histories of Push/Tag/Untag/Delete/GC/SaveIndex/read-write reopen/AutoGC assignment, all universes (DAG, media types, undecodable manifests), all reference names the store accepts and all Go map iteration orders: with AutoSaveIndex (at every quiescent point) or right after SaveIndex the store reloaded from index.json + blobs answers exactly like the running store (tag list incl. Tags(last), tag->descriptor up to the ref-name annotation, Resolve by digest, Exists/Fetch, Predecessors) and every index.json entry points to a stored blob; proved as a store invariant + 'index.json is an order-independent projection of the resolver map' + load-after-save identity, plus 'an archive of the directory gives the os.DirFS view' for tarfs; about executable models that are extracted and run against content/oci and internal/fs/tarfs on random histories over real directories reopened four ways (oci.New, NewFromFS(os.DirFS), NewFromFS(fstest.MapFS), NewFromTar of archives in eleven styles incl. GNU tar / bsdtar sparse members), with an independent reopen/layout/predecessor oracle",
-    "level_note": "full for the repaired code (six fix: commits of this property: GC saves index.json; GC keeps digest references; tarfs reads data in place and decodes sparse members; Push leaves no blob it cannot index; Tag refuses digests of other content and invalid UTF-8) plus C09's Delete/gcIndex/resolver fixes; each pre-fix behaviour has a refuted witness or a corpus replay. ORACLE-ONLY clauses (no theorem, the model has no bytes/sizes/JSON): 'oci-layout and index.json parse', 'every blob file is named by the digest of its bytes', 'of the recorded size' (conditional on the size passed to Tag, see assumptions), Fetch returning the bytes, no leftover temporary files, opening does not rewrite index.json. Exists/Fetch equality is by construction in the store model; the tar clause rests on C08_tar_view (abstract names and kinds) + the harness. The three ways of reopening are one model function (loadIndex over an fs.FS): oci.New only adds file creation on a missing layout, NewFromTar adds tarfs. Concurrency: every schedule of index-saving operations leaves index.json current at quiescence and every schedule of Tag/Delete/Push leaves only references to existing content, for the lock placement the translator reads from the sources (moving a lock call breaks C08_locks_as_in_the_sources); the harness runs concurrent batches with a watchdog. Thorough tier re-evaluates 200 sampled histories inside Coq (vm_compute) against the extracted runner",
+    "level_note": "full for the repaired code (six fix: commits of this property: GC saves index.json; GC keeps digest references; tarfs reads data in place and decodes sparse members; Push leaves no blob it cannot index; Tag refuses digests of other content and invalid UTF-8) plus C09's Delete/gcIndex/resolver fixes; each pre-fix behaviour has a refuted witness or a corpus replay. ORACLE-ONLY clauses (no theorem, the model has no bytes/sizes/JSON): 'oci-layout and index.json parse', 'every blob file is named by the digest of its bytes', 'of the recorded size' (conditional on the size passed to Tag, see assumptions), Fetch returning the bytes, no leftover temporary files, opening does not rewrite index.json. Exists/Fetch equality is by construction in the store model; the tar clause rests on C08_tar_view (abstract names and kinds) + the harness. The three ways of reopening are one model function (loadIndex over an fs.FS): oci.New only adds file creation on a missing layout, NewFromTar adds tarfs. Concurrency: every schedule of index-saving operations leaves index.json current at quiescence and every schedule of Tag/Delete/Push leaves only references to existing content, for the lock placement the translator reads from the sources (moving a lock call breaks C08_locks_as_in_the_sources; changing the condition under which the index is saved, the digest entry is registered or a manifest is indexed breaks C08_guards_as_in_the_sources); the harness runs concurrent batches with a watchdog. Thorough tier re-evaluates 200 sampled histories inside Coq (vm_compute) against the extracted runner",
     "technique": "machine-checked proof in Coq (store state machine, invariant over all histories and map iteration orders, load-after-save observational identity) + model/implementation correspondence on random histories + independent reopen/layout oracle",
     "explanation": "invariant (every stored manifest is referenced by digest and indexed; every reference points to stored content; index.json is a projection of the resolver map) proved for every history and map order; reopen = loadIndex of that projection proved observationally equal; model extracted and compared with content/oci on random histories with three-way reopening; independent oracle compares original and reopened stores, checks predecessors against the generator's edges and validates the raw directory",
 }
